@@ -95,6 +95,7 @@ def rule_hash_inputs(ck, repo, R):
 
 
 def rule_order_free_hash(ck, repo, R, funcs):
+    from .astutil import single_defs
     ck.rule(R, 'inside every hash(...) of the refinement loops each value that iterates a neighbour dictionary (insertion order = '
                'edit history) passes through an order-insensitive aggregator (sorted/min/max/sum/set/frozenset) first')
     n = 0
@@ -131,6 +132,26 @@ def rule_order_free_hash(ck, repo, R, funcs):
                     ck.decide(ok, R, f'{f.qualname}:{src(it)}', 'sorted' if ok else None,
                               f'{f.qualname}: hash(...) consumes `{src(g)[:80]}` in dictionary insertion order: two numberings / build orders '
                               f'of one structure hash differently', file=f.file, line=call.lineno, func=f.qualname, construct=src(call)[:120])
+            # a value consumed by hash() inside a refinement loop must not be precomputed, outside the loop, from a variable the loop rebinds each round
+            # (`order = sorted(.., key=current identifiers)` hoisted out of the loop keeps the order of round 0: ties are then broken by position)
+            loop = parents.get(call0)
+            while loop is not None and not isinstance(loop, (ast.For, ast.While)):
+                loop = parents.get(loop)
+            if loop is not None:
+                rebound = {t.id for a in ast.walk(loop) if isinstance(a, ast.Assign) for tt in a.targets for t in ast.walk(tt) if isinstance(t, ast.Name)}
+                defs = single_defs(f.node)
+                in_loop = {id(x) for x in ast.walk(loop)}
+                for nm in {x.id for x in ast.walk(call0) if isinstance(x, ast.Name) and isinstance(x.ctx, ast.Load)}:
+                    d = defs.get(nm)
+                    if d is None or id(d) in in_loop:
+                        continue
+                    stale = sorted({x.id for x in ast.walk(d) if isinstance(x, ast.Name)} & rebound)
+                    if stale:
+                        n += 1
+                        ck.bad(R, f'{f.qualname}:hoisted:{nm}', f'{f.qualname}: hash(...) inside the refinement loop consumes `{nm}`, computed once before the loop from {stale}, '
+                                                              f'which the loop rebinds every round: the precomputed order / values belong to round 0, so later rounds combine neighbours in an '
+                                                              f'order fixed by the first round (ties by position), not by the current identifiers',
+                               file=f.file, line=call0.lineno, func=f.qualname, construct=f'{nm} = {src(d)[:100]}')
     ck.count(f'{R} dict iterations inside hash()', n)
     return n
 
